@@ -1,6 +1,7 @@
 package hgenlib
 
 import (
+	"reflect"
 	"bufio"
 	"bytes"
 	"encoding/binary"
@@ -184,6 +185,7 @@ type history struct {
 type runResult struct {
 	stream     []byte
 	truths     []string
+	wmasks     []uint64 // the writer record's top-level modified mask just before each Write
 	werr       string
 	wcount     uint64
 	callPanics []string
@@ -276,6 +278,9 @@ func generate(r *rng.R, root *rootSpec, o wopts, cfg *recgen.Cfg, p genParams) (
 		}
 		h.steps = append(h.steps, step{kind: 'W'})
 		res.truths = append(res.truths, recgen.Dump(w.Rec(), root.ty))
+		if m, pan := safeMask(w.Rec(), root.ty); pan == "" {
+			res.wmasks = append(res.wmasks, m)
+		}
 		if err, pan := safe(w.Write); err != nil || pan != "" {
 			res.werr = fmt.Sprintf("Write #%d: %v%s", i, err, pan)
 			break
@@ -606,5 +611,57 @@ func (b *boundPkg) printSchemaLine() {
 		b.printed = true
 		emit("sd schema "+b.ID+" "+recgen.SchemaEncoding(b.schema), "ok")
 		emit("se schema "+b.ID+" "+recgen.SchemaEncoding(b.schema), "ok") // the Lean encoder sub-driver has its own table
+		// the record API model: the same schema plus the types the generator stores by pointer
+		emit("ap schema "+b.ID+" "+recgen.SchemaEncoding(b.schema)+" "+recgen.RecursiveNames(b.model), "ok")
+	}
+}
+
+func safeMask(rec reflect.Value, ty *recgen.Type) (m uint64, pan string) {
+	defer func() {
+		if e := recover(); e != nil {
+			pan = fmt.Sprint(e)
+		}
+	}()
+	return recgen.ModifiedMask(rec, ty), ""
+}
+
+// emitAPI replays the history on the Lean model of the generated record API (lean/Stef/Api.lean,
+// op `ap`; see cmd/h_codec emitAPI): calls, value + top-level marks at every Write, frame contents
+// byte for byte. Histories with a call the model does not describe are skipped and counted.
+func emitAPI(b *boundPkg, h *history, res *runResult, ps *parsedStream) {
+	if h.opts.override != nil || h.root.mutTy != nil {
+		stats["api-histories-unsupported"]++
+		stats["api-unsupported-older-schema"]++
+		return
+	}
+	var steps []recgen.APIStep
+	for _, st := range h.steps {
+		if st.kind == 'c' || st.kind == 'W' {
+			steps = append(steps, recgen.APIStep{Kind: st.kind, Call: st.call})
+		}
+	}
+	var frames []recgen.APIFrame
+	for _, f := range ps.frames[1:] {
+		frames = append(frames, recgen.APIFrame{Flags: f.flags, NRec: f.nrec, Content: f.content})
+	}
+	lines, unsupported, ok := recgen.APIOps(b.ID, h.root.name, h.root.ty, h.gen, steps, res.wmasks, res.truths, frames,
+		func(stream []byte) string {
+			eq, _, err := equivalentOf(stream)
+			if err != nil {
+				return ""
+			}
+			return hx(eq)
+		})
+	if !ok {
+		stats["api-histories-unsupported"]++
+		for k, v := range unsupported {
+			stats["api-unsupported-"+k] += v
+		}
+		return
+	}
+	stats["api-histories-supported"]++
+	stats["api-ops"] += len(lines)
+	for _, l := range lines {
+		emit(l[0], l[1])
 	}
 }
